@@ -322,6 +322,48 @@ def h1_programs(K=2, first=None, second=None, timeout=200, part=None, one_matrix
                          timeout, concretize=_conc_common, shims={"namespace_shims": shims}, part=part)
 
 
+# -------------------------------------------------------------------------------------------- H9 every text-state parameter is saved by q and restored by Q
+SR_OPS = ["Tc", "Tw", "Tz", "TL", "Ts", "Tf", "Td", "g", "T*"]
+
+
+def h9_saverestore(timeout=200, part=None, **kw):
+    """BT Tf ; X ; q ; Y ; TJ ; Q ; T* ; TJ for every pair X, Y of text-state operators with symbolic operands: the glyphs shown inside q..Q carry the state after X and Y, those shown after Q
+    exactly the state after X (character / word spacing, horizontal scaling, leading, rise, font size, fill colour)"""
+    shims = _shims()
+    import pdfminer.pdfinterp as pi
+
+    def fn(ex):
+        W = _widths(ex)
+        it, dev = setup(I6, W)
+        ref = Ref(I6, W)
+        fs = ex.real("fs", -100, 100)
+        prog = [("BT", []), ("Tf", [fs])]
+        for k, tag in enumerate("xy"):
+            o = SR_OPS[ex.choice(len(SR_OPS), "op" + tag)]
+            a = [ex.real("a%d_%d" % (k, i), -100, 100) for i in range(NARGS[o])]
+            if o == "Tz":
+                ex.assume(a[0] != 0)
+            prog.append((o, a))
+            if k == 0:
+                prog.append(("q", []))
+        prog += [("TJ", [ex.real("j0", -100, 100), ex.real("j1", -100, 100)]), ("Q", []), ("T*", []), ("TJ", [ex.real("j2", -100, 100), ex.real("j3", -100, 100)])]
+        info = {"prog": [p[0] for p in prog], "bbox": True}
+        for o, a in prog:
+            try:
+                run_real(it, o, a)
+            except symx.Violation:
+                raise
+            except Exception as e:
+                ex.require(False, "operator %s raised %s: %s" % (o, type(e).__name__, e), **info)
+            ref.op(o, a)
+        compare(ex, glyphs_of(dev.cur_item), ref.out, info)
+
+    P = pi.PDFPageInterpreter
+    return core.run_symx("H9_saverestore", fn, [P.do_q, P.do_Q, pi.PDFTextState.copy, P.get_current_state, P.set_current_state, P.do_Tc, P.do_Tw, P.do_Tz, P.do_TL, P.do_Ts, P.do_Tf, P.do_TJ],
+                         {"program": "BT Tf ; X ; q ; Y ; TJ ; Q ; T* ; TJ with X, Y from %s" % " ".join(SR_OPS), "operands": "all symbolic reals in [-100,100]", "widths": "symbolic in [0,2000] for codes 65,66,32"},
+                         timeout, concretize=_conc_common, shims={"namespace_shims": shims}, part=part)
+
+
 # -------------------------------------------------------------------------------------------- H2 spacing
 def h2_spacing(timeout=100, **kw):
     shims = _shims()
@@ -704,6 +746,16 @@ def replay(harness, inp):
             if ecol != "unset" and not (isinstance(gcol, tuple) == isinstance(ecol, tuple) and gcol is not None and near(gcol if isinstance(gcol, tuple) else [gcol], ecol if isinstance(ecol, tuple) else [ecol])):
                 return "glyph %d %r: fill colour %r, text model %r" % (i, e["text"], c.graphicstate.ncolor, e["ncolor"])
         return None
+    if harness == "H9_saverestore":
+        names = inp["prog"]
+        prog = [("BT", []), ("Tf", [g("fs")]), (names[2], [g("a0_%d" % i) for i in range(NARGS[names[2]])]), ("q", []), (names[4], [g("a1_%d" % i) for i in range(NARGS[names[4]])]),
+                ("TJ", [g("j0"), g("j1")]), ("Q", []), ("T*", []), ("TJ", [g("j2"), g("j3")])]
+        try:
+            it, dev, ref = run(prog)
+        except Exception as e:
+            return "program %r raised %r" % (names, e)
+        d = diff(dev, ref)
+        return None if d is None else "program %s with operands %r: %s" % (" ".join(names), {k: float(x) for k, x in v.items() if not isinstance(x, bool)}, d)
     if harness == "H1_programs":
         prog = []
         names = inp["prog"]
@@ -778,7 +830,7 @@ def _replay_form(inp, v, g, W, diff):
 def jobs(tier):
     J = [Job("H7_colour:%d" % k, "h7_colour", {"K": 3, "part": [k, 4, 6]}, 300, "H7_colour") for k in range(4)]
     J += [Job("H6_missing2:%d" % k, "h6_missing2", {"part": [k, 2, 5]}, 300, "H6_illtyped") for k in range(2)]
-    J += [Job("H2_spacing", "h2_spacing", {}, 150), Job("H4_form", "h4_form", {}, 200), Job("H5_split", "h5_split", {}, 100), Job("H8_pages", "h8_pages", {}, 200), Job("H6_illtyped", "h6_illtyped", {}, 200)]
+    J += [Job("H2_spacing", "h2_spacing", {}, 150), Job("H4_form", "h4_form", {}, 200), Job("H5_split", "h5_split", {}, 100), Job("H8_pages", "h8_pages", {}, 200), Job("H9_saverestore:0", "h9_saverestore", {"part": [0, 3, 5]}, 300, "H9_saverestore"), Job("H9_saverestore:1", "h9_saverestore", {"part": [1, 3, 5]}, 300, "H9_saverestore"), Job("H9_saverestore:2", "h9_saverestore", {"part": [2, 3, 5]}, 300, "H9_saverestore"), Job("H6_illtyped", "h6_illtyped", {}, 200)]
     if tier == "quick":
         for f in range(len(OPS)):
             J.append(Job("H1_programs:K2:%s" % OPS[f], "h1_programs", {"K": 2, "first": f}, 200, "H1_programs"))
